@@ -237,6 +237,11 @@ func (r *replicateChannelManager) startReadCollectionForMilvus(ctx context.Conte
 	if retryErr != nil {
 		return nil, retryErr
 	}
+	if r.isDroppedCollection(info.ID) {
+		// the drop of this very collection was replayed while we were waiting for it: the (stale) info must not re-create it
+		log.Info("the collection has been dropped when start to read it", zap.Int64("collection_id", info.ID), zap.String("collection_name", info.Schema.Name))
+		return nil, nil
+	}
 
 	if err != nil {
 		// the collection is not existed in the target and source collection has dropped, skip it
